@@ -91,6 +91,9 @@ impl AttrM {
 pub struct Prelude {
     pub doc: Vec<String>,
     pub attrs: Vec<AttrM>,
+    /// the structured form `doc` was printed from, when the generator made one (never compared:
+    /// `observe` and the canonical form leave it empty)
+    pub docm: Option<Box<crate::doc::DocModel>>,
 }
 
 #[derive(Clone, Debug, PartialEq, Eq, Hash, Serialize)]
